@@ -176,6 +176,12 @@ func genDoc13(g *Rng, i int) string {
 	}
 	if g.Chance(15) {
 		fmt.Fprintf(&b, "# foot comment %d\n", i)
+	} else if g.Chance(25) {
+		// a keep-chomped block scalar as the LAST node, followed by 0-3 blank lines: its value depends on
+		// the exact number of line breaks the reader hands to the decoder
+		ind := g.Pick([]string{"|+", ">+", "|+", "|"})
+		fmt.Fprintf(&b, "tail:\n  script: %s\n    echo hello %d\n", ind, i)
+		b.WriteString(strings.Repeat("\n", g.Intn(4)))
 	}
 	return b.String()
 }
@@ -211,6 +217,50 @@ func genStream13(g *Rng) (string, int) {
 		s = strings.ReplaceAll(s, "\n", "\r\n")
 	}
 	return s, n
+}
+
+// keepTailCases: streams whose documents are "k: |+" (or ">+") scalars followed by 0-3 blank lines.
+// Observed per decoded document: the number of line breaks the scalar's value ends with, which is the
+// number of newlines the chunk handed to the decoder ends with (model: reader_chunks).
+func keepTailCases(r *Run) {
+	blanks := []int{0, 1, 2, 3}
+	emit := func(docs []string, final string, crlf bool) {
+		s := strings.Join(docs, "---\n") + final
+		if crlf {
+			s = strings.ReplaceAll(s, "\n", "\r\n")
+		}
+		desc := map[string]string{"kind": "keep-tails", "s": s}
+		nodes, err := (&kio.ByteReader{Reader: strings.NewReader(s)}).Read()
+		if err != nil {
+			r.Violation(OracleViolation{Law: "roundtrip_ok", Class: "C13/roundtrip-rejected", Detail: "reader rejected a keep-scalar stream: " + err.Error(), Replay: desc})
+			return
+		}
+		var tails []string
+		for _, n := range nodes {
+			v, err := n.Pipe(kyaml.Lookup("k"))
+			if err != nil || v == nil {
+				return
+			}
+			val := v.YNode().Value
+			tails = append(tails, fmt.Sprintf("%d%%N", len(val)-len(strings.TrimRight(val, "\n"))))
+		}
+		r.AddCase(fmt.Sprintf("(S_tails %s [%s])", coqStr(s), strings.Join(tails, "; ")), desc, len(nodes) > 1)
+		r.Count("keep_tails", fmt.Sprint(len(nodes)))
+		roundTripOracle(r, s)
+	}
+	for _, ind := range []string{"|+", ">+"} {
+		doc := func(b int) string { return "k: " + ind + "\n  a\n" + strings.Repeat("\n", b) }
+		for _, b1 := range blanks {
+			for _, b2 := range blanks {
+				emit([]string{doc(b1), doc(b2)}, "", false)
+				emit([]string{doc(b1), doc(b2)}, "---\n", false)
+				for _, b3 := range []int{0, 2} {
+					emit([]string{doc(b1), doc(b2), doc(b3)}, "", b3 == 2)
+				}
+			}
+			emit([]string{doc(b1), "k: " + ind + "\n  a"}, "", false)
+		}
+	}
 }
 
 // ---------- round trip oracles ----------
@@ -400,7 +450,13 @@ func roundTripOracle(r *Run, s string) {
 		if !reflect.DeepEqual(in[i], got[i]) {
 			a, _ := json.Marshal(in[i])
 			b, _ := json.Marshal(got[i])
-			report("roundtrip_data", "C13/roundtrip-data", fmt.Sprintf("document %d changed: %s -> %s", i, a, b))
+			cls := "C13/roundtrip-data"
+			if strings.Contains(s, ">+") && onlyKeepFoldedGrowth(in[i], got[i]) {
+				// known: the emitter writes one blank line after every folded scalar; for a keep-chomped one (>+)
+				// that ends in a blank line this is one more line break of data
+				cls = "C13/roundtrip-data/folded-keep-scalar-gains-line-break"
+			}
+			report("roundtrip_data", cls, fmt.Sprintf("document %d changed: %s -> %s", i, a, b))
 			return
 		}
 	}
@@ -434,7 +490,9 @@ func roundTripOracle(r *Run, s string) {
 		report("roundtrip_idempotent", "C13/roundtrip-second-rejected", err.Error())
 	} else if out2 != out1 {
 		cls := "C13/roundtrip-not-idempotent"
-		if dropBlankLines(out1) == dropBlankLines(out2) && foldedBeforeComment(out1) {
+		if dropBlankLines(out1) == dropBlankLines(out2) && strings.Contains(out1, ">+") {
+			cls = "C13/roundtrip-not-idempotent/folded-keep-scalar-gains-line-break"
+		} else if dropBlankLines(out1) == dropBlankLines(out2) && foldedBeforeComment(out1) {
 			// known: the emitter adds one more blank line between a folded scalar and a following comment
 			cls = "C13/roundtrip-not-idempotent/folded-scalar-then-comment-blank-line"
 		}
@@ -443,6 +501,41 @@ func roundTripOracle(r *Run, s string) {
 }
 
 // dropBlankLines removes empty lines and the indentation of whole-line comments.
+// onlyKeepFoldedGrowth: a and b differ only in string leaves, each of which ends in a blank line in a
+// and has exactly one more line break in b.
+func onlyKeepFoldedGrowth(a, b interface{}) bool {
+	switch x := a.(type) {
+	case map[string]interface{}:
+		y, ok := b.(map[string]interface{})
+		if !ok || len(x) != len(y) {
+			return false
+		}
+		for k, v := range x {
+			w, ok := y[k]
+			if !ok || !onlyKeepFoldedGrowth(v, w) {
+				return false
+			}
+		}
+		return true
+	case []interface{}:
+		y, ok := b.([]interface{})
+		if !ok || len(x) != len(y) {
+			return false
+		}
+		for i := range x {
+			if !onlyKeepFoldedGrowth(x[i], y[i]) {
+				return false
+			}
+		}
+		return true
+	case string:
+		y, ok := b.(string)
+		return ok && (x == y || (strings.HasSuffix(x, "\n\n") && y == x+"\n"))
+	default:
+		return reflect.DeepEqual(a, b)
+	}
+}
+
 func dropBlankLines(s string) string {
 	var out []string
 	for _, l := range strings.Split(s, "\n") {
@@ -662,7 +755,137 @@ func checkMuts(r *Run, fs *recFS, law, cls string, desc interface{}) (writes, mk
 	return
 }
 
+// resSpec: what the package writer looks at in a resource (nil = annotation absent).
+type resSpec struct {
+	Internal *string `json:"internal"`
+	Legacy   *string `json:"legacy"`
+	Index    *string `json:"index"`
+	Ns       string  `json:"ns"`
+	Kind     string  `json:"kind"`
+	Name     string  `json:"name"`
+}
+
+func yq13(s string) string { return "'" + strings.ReplaceAll(s, "'", "''") + "'" }
+
+func (rs resSpec) build() (*kyaml.RNode, error) {
+	var b strings.Builder
+	fmt.Fprintf(&b, "apiVersion: v1\nkind: %s\nmetadata:\n  name: %s\n", yq13(rs.Kind), yq13(rs.Name))
+	if rs.Ns != "" {
+		fmt.Fprintf(&b, "  namespace: %s\n", yq13(rs.Ns))
+	}
+	n, err := kyaml.Parse(b.String())
+	if err != nil {
+		return nil, err
+	}
+	for _, kv := range []struct {
+		k string
+		v *string
+	}{{kioutil.PathAnnotation, rs.Internal}, {kioutil.LegacyPathAnnotation, rs.Legacy}, {kioutil.IndexAnnotation, rs.Index}} {
+		if kv.v != nil {
+			if err := n.PipeE(kyaml.SetAnnotation(kv.k, *kv.v)); err != nil {
+				return nil, err
+			}
+		}
+	}
+	return n, nil
+}
+
+func coqOptStr13(p *string) string {
+	if p == nil {
+		return "None"
+	}
+	return "(Some " + coqStr(*p) + ")"
+}
+
+func (rs resSpec) coq() string {
+	return fmt.Sprintf("(mkRes %s %s %s %s %s %s)", coqOptStr13(rs.Internal), coqOptStr13(rs.Legacy), coqOptStr13(rs.Index),
+		coqStr(rs.Ns), coqStr(rs.Kind), coqStr(rs.Name))
+}
+
+func sp13(s string) *string { return &s }
+
+var c13PathOpts = []*string{nil, sp13(""), sp13("d/a.yaml"), sp13("../x.yaml"), sp13("d/../../x.yaml"), sp13("/abs.yaml")}
+var c13Namespaces = []string{"", "ns", "a/b", "../../outside", "..", "a/../..", "/abs", "./x", "..a", "pkg-evil/../../pkg-evil", "/"}
+var c13Names = []string{"cm", "../x", "a/b", "/etc/x", "..", "x/../../../y"}
+var c13KindsAdv = []string{"ConfigMap", "../K", "A/B", "/K"}
+
+// writeOne runs LocalPackageWriter on one resource in a fresh package and returns what the recording FS saw.
+func writeOne(r *Run, n *kyaml.RNode, desc interface{}) (obs, mk, wr string) {
+	fs, err := newPkgFS()
+	if err != nil {
+		return ClsErr, "", ""
+	}
+	cls, _ := protect(func() error {
+		return kio.LocalPackageWriter{PackagePath: "/pkg", FileSystem: filesys.FileSystemOrOnDisk{FileSystem: fs}}.Write([]*kyaml.RNode{n})
+	})
+	writes, mkdirs := checkMuts(r, fs, "write_confined", "C13/write-escape", desc)
+	obs = ClsErr
+	if len(fs.muts) > 0 {
+		obs = ClsOk
+		if len(mkdirs) > 0 {
+			mk = mkdirs[0]
+		}
+		if len(writes) > 0 {
+			wr = writes[0]
+		}
+	}
+	if cls == ClsPanic {
+		obs = ClsPanic
+		r.Violation(OracleViolation{Law: "no_panic", Class: "C13/pkg-write-panic", Detail: "LocalPackageWriter panicked", Replay: desc})
+	}
+	if b, err := fs.ReadFile("/outside/secret.yaml"); err != nil || string(b) != "secret: 1\n" {
+		r.Violation(OracleViolation{Law: "write_confined", Class: "C13/write-escape", Detail: "a file outside the package changed", Replay: desc})
+	}
+	for _, p := range []string{"/outside", "/pkg-evil"} {
+		if l, err := fs.ReadDir(p); err == nil && ((p == "/outside" && len(l) != 1) || (p == "/pkg-evil" && len(l) != 0)) {
+			r.Violation(OracleViolation{Law: "write_confined", Class: "C13/write-escape", Detail: fmt.Sprintf("entries appeared in %s: %v", p, l), Replay: desc})
+		}
+	}
+	return obs, mk, wr
+}
+
+// legalForMemFS: every directory component the writer will create is a legal in-memory file name
+// (otherwise MkdirAll fails half way and the WriteFile argument is not observable).
+var legalName = regexp.MustCompile(`^[a-zA-Z0-9-_.:]+$`)
+
+func defaultedPathCases(r *Run) {
+	idx := []*string{nil, sp13("0"), sp13("")}
+	for _, in := range c13PathOpts {
+		for _, lg := range c13PathOpts {
+			for _, ns := range c13Namespaces {
+				for _, name := range c13Names {
+					for ki, kind := range c13KindsAdv {
+						explicit := (in != nil && *in != "") || (lg != nil && *lg != "")
+						if explicit && (ns != c13Namespaces[0] && ns != "../../outside" || name != "cm" || ki != 0) {
+							continue // the metadata only matters when the path is defaulted
+						}
+						if !explicit && in != nil && (name != "cm" || ki != 0) {
+							continue // present-but-empty internal path: no default either
+						}
+						for _, ix := range idx {
+							if ix != nil && *ix == "" && (ns != "" || name != "cm") {
+								continue
+							}
+							rs := resSpec{Internal: in, Legacy: lg, Index: ix, Ns: ns, Kind: kind, Name: name}
+							n, err := rs.build()
+							if err != nil {
+								r.Meta.Skipped++
+								continue
+							}
+							desc := map[string]interface{}{"kind": "pkg-res", "res": rs}
+							obs, mk, wr := writeOne(r, n, desc)
+							r.Count("pkg_res", obs)
+							r.AddCase(fmt.Sprintf("(P_res \"/pkg\" %s %s %s %s)", rs.coq(), obs, coqStr(mk), coqStr(wr)), desc, obs == ClsOk)
+						}
+					}
+				}
+			}
+		}
+	}
+}
+
 func pkgWriterCases(r *Run, rng *Rng, nBatches int) {
+	defaultedPathCases(r)
 	// one resource per write: compared with the model
 	for _, ann := range c13PathForms {
 		fs, err := newPkgFS()
@@ -717,6 +940,24 @@ func pkgWriterCases(r *Run, rng *Rng, nBatches int) {
 				p = g.Pick(c13PathForms[:8])
 			}
 			ix := g.Pick(idx)
+			if g.Chance(35) {
+				// no usable path annotation: the writer derives the path itself
+				rs := resSpec{Ns: g.Pick(c13Namespaces), Kind: g.Pick(c13KindsAdv), Name: fmt.Sprintf("%s%d", g.Pick(c13Names), i)}
+				switch g.Intn(4) {
+				case 0:
+					rs.Internal = sp13("")
+					rs.Legacy = sp13(g.Pick(c13PathForms))
+				case 1:
+					rs.Legacy = sp13(g.Pick(c13PathForms))
+				case 2:
+					rs.Index = sp13(ix)
+				}
+				if n, err := rs.build(); err == nil {
+					spec = append(spec, [2]string{"<defaulted> ns=" + rs.Ns + " kind=" + rs.Kind + " name=" + rs.Name, ix})
+					nodes = append(nodes, n)
+					continue
+				}
+			}
 			spec = append(spec, [2]string{p, ix})
 			nodes = append(nodes, resourceWith(p, ix, i))
 		}
@@ -755,7 +996,7 @@ func pkgWriterCases(r *Run, rng *Rng, nBatches int) {
 		var kept []*kyaml.RNode
 		var spec []string
 		for _, n := range nodes {
-			switch g.Intn(5) {
+			switch g.Intn(6) {
 			case 0: // dropped
 				spec = append(spec, "drop")
 			case 1: // path annotation rewritten adversarially
@@ -766,6 +1007,15 @@ func pkgWriterCases(r *Run, rng *Rng, nBatches int) {
 				}
 				kept = append(kept, n)
 				spec = append(spec, "path="+p)
+			case 3: // path annotations removed, namespace rewritten: the writer has to derive the path
+				_ = n.PipeE(kyaml.ClearAnnotation(kioutil.PathAnnotation))
+				_ = n.PipeE(kyaml.ClearAnnotation(kioutil.LegacyPathAnnotation))
+				ns := g.Pick(c13Namespaces)
+				if ns != "" {
+					_ = n.PipeE(kyaml.SetK8sNamespace(ns))
+				}
+				kept = append(kept, n)
+				spec = append(spec, "nopath ns="+ns)
 			case 2: // moved to another file of the package
 				p := g.Pick(files)
 				_ = n.PipeE(kyaml.SetAnnotation(kioutil.PathAnnotation, p))
@@ -846,6 +1096,7 @@ func runC13(r *Run, rng *Rng, tier string) error {
 		splitCase(r, strings.ReplaceAll(s, "\r\n", "\n"), i < 400)
 		roundTripOracle(r, s)
 	}
+	keepTailCases(r)
 	// 3. annotations
 	annotationCases(r, rng.Fork())
 	// 4. package IO
